@@ -12,6 +12,7 @@ import Proofs.Lemmas.C12FormTotal
 import Proofs.Lemmas.C12FormGen
 import Proofs.Lemmas.C12FormFlat
 import Proofs.Lemmas.C12FormSelect
+import Proofs.Lemmas.C12FormSubmit
 namespace Flatland.C12.Proofs
 open Flatland.Markup Flatland.C12 Flatland.C19.Proofs
 
@@ -212,11 +213,13 @@ theorem slots_roundtrip_at (T : Tables) (ctx : Ctx) (hT : TablesOK T) (hL : Live
     rfl
 end
 
-/-- FORM ROUND TRIP.  For every element tree and every way form mode renders its leaves, on a
-    generator whose context has name and value generation switched on: if the tag calls render,
-    the name/value pairs a browser submits for the unchanged form are exactly the element's own
-    flat pairs a form can carry, in document order. -/
-theorem form_roundtrip (T : Tables) (ctx : Ctx) (hT : TablesOK T) (hL : Live T ctx) (t : FormTree)
+/-- EVERY CONTROL POSTS ITS PAIR.  For every element tree and every way form mode renders its
+    leaves, on a generator whose context has name and value generation switched on: if the tag
+    calls render, what the controls post — every control taken as successful, every submitter as
+    THE activated one (`browserPost`) — is exactly the element's own flat pairs a form can carry, in
+    document order.  What a browser really submits (`browserSubmit`: at most one submitter is
+    activated) is `form_roundtrip` below. -/
+theorem form_controls_post (T : Tables) (ctx : Ctx) (hT : TablesOK T) (hL : Live T ctx) (t : FormTree)
     (hok : formOk T [] t = true) (ps : List Pair)
     (h : browserPost (seenOf T ctx) (renderForm [] t) = .ok ps) : ps = formPairs [] t :=
   form_roundtrip_at T ctx hT hL t [] hok ps h
@@ -423,42 +426,214 @@ theorem renderSlots_stable (T : Tables) : ∀ (ts : List FormTree) (pre : List (
     · exact renderSlots_stable T ts pre (i + 1) hok.2 c h
 end
 
+/-! ### what a browser submits: at most one submitter is activated -/
+
+/-- the submitters a browser counts in the rendered form are the ones the tree renders -/
+theorem form_subCount (T : Tables) {see : Str → Bind → Attrs → Except PyErr Seen} (hsee : ReadsType see)
+    (t : FormTree) (pre : List (Option Str)) (hok : formOk T pre t = true) (ps : List Pair)
+    (h : browserPost see (renderForm pre t) = .ok ps) : subCount see (renderForm pre t) = .ok (submitters t) := by
+  rw [subCount_eq hsee _ (renderForm_stable T t pre hok) ps h, countP_renderForm T t pre hok]
+
+/-- with at most one submitter, pressed: the submission is what the controls post -/
+theorem submit_of_post (T : Tables) {see : Str → Bind → Attrs → Except PyErr Seen} (hsee : ReadsType see)
+    (t : FormTree) (hok : formOk T [] t = true) (hsub : oneSubmitter t = true) (ps : List Pair)
+    (h : browserPost see (renderForm [] t) = .ok ps) : browserSubmit see (some 0) (renderForm [] t) = .ok ps :=
+  browserSubmit_of_one _ _ ps (form_subCount T hsee t [] hok ps h) (by simpa [oneSubmitter] using hsub) h
+
+/-- FORM ROUND TRIP.  For every element tree and every way form mode renders its leaves, on a
+    generator whose context has name and value generation switched on: if the tag calls render,
+    the name/value pairs a browser submits for the unchanged form are exactly the element's own
+    flat pairs a form can carry, in document order.
+    SUBMITTERS: a browser posts a `<button>` / `<input type=submit>` only when it is the control
+    that was activated (`browserSubmit`).  The statement is about forms that render bound data as
+    AT MOST ONE submitter (`hsub`), submitted through it.  An element rendered only as a button
+    that is not pressed is not posted (`form_unpressed`); forms with two or more submitters are
+    outside this theorem. -/
+theorem form_roundtrip (T : Tables) (ctx : Ctx) (hT : TablesOK T) (hL : Live T ctx) (t : FormTree)
+    (hok : formOk T [] t = true) (hsub : oneSubmitter t = true) (ps : List Pair)
+    (h : browserSubmit (seenOf T ctx) (some 0) (renderForm [] t) = .ok ps) : ps = formPairs [] t := by
+  obtain ⟨ps', h'⟩ := browserPost_of_submit _ _ _ h
+  have e := submit_of_post T (readsType_seenOf T ctx) t hok hsub ps' h'
+  rw [h] at e
+  simp only [Except.ok.injEq] at e
+  rw [e]
+  exact form_controls_post T ctx hT hL t hok ps' h'
+
 /-- FORM ROUND TRIP, total form: on a generator whose context has name/value generation on and the
     id / for / tabindex / filter transforms off (the default settings), every form renders and the
     browser submits exactly the element's own flat pairs a form can carry -/
 theorem form_roundtrip_total (T : Tables) (ctx : Ctx) (hT : TablesOK T) (hL : Live T ctx) (hQ : Quiet T ctx)
-    (t : FormTree) (hok : formOk T [] t = true) :
-    browserPost (seenOf T ctx) (renderForm [] t) = .ok (formPairs [] t) := by
+    (t : FormTree) (hok : formOk T [] t = true) (hsub : oneSubmitter t = true) :
+    browserSubmit (seenOf T ctx) (some 0) (renderForm [] t) = .ok (formPairs [] t) := by
   obtain ⟨ps, h⟩ := form_renders_at T ctx hT hL hQ _ (seesAll_seenOf T ctx) t [] hok
-  rw [h, form_roundtrip T ctx hT hL t hok ps h]
+  have e := form_controls_post T ctx hT hL t hok ps h
+  subst e
+  exact submit_of_post T (readsType_seenOf T ctx) t hok hsub _ h
 
 /-- … in particular on `Generator()` with the tables of the current source -/
-theorem form_roundtrip_fresh (t : FormTree) (hok : formOk Tables.current [] t = true) :
-    browserPost (seenOf Tables.current freshGen.ctx) (renderForm [] t) = .ok (formPairs [] t) :=
-  form_roundtrip_total _ _ tablesOK_current fresh_live fresh_quiet t hok
+theorem form_roundtrip_fresh (t : FormTree) (hok : formOk Tables.current [] t = true) (hsub : oneSubmitter t = true) :
+    browserSubmit (seenOf Tables.current freshGen.ctx) (some 0) (renderForm [] t) = .ok (formPairs [] t) :=
+  form_roundtrip_total _ _ tablesOK_current fresh_live fresh_quiet t hok hsub
 
 /-! ### the same through `prepareTag`, the way the runner makes the tag calls -/
 
-/-- FORM ROUND TRIP on a generator: every tag call made as `gen.<tag>(bind, **kwargs)` (`prepareTag`:
+/-- every control posts its pair, every tag call made as `gen.<tag>(bind, **kwargs)` (`prepareTag`:
     keyword arguments re-keyed, attributes put in output order, contents printed and parsed back) -/
+theorem form_controls_post_generator (T : Tables) (order : List Str) (g : Gen) (hT : TablesOK T) (hL : Live T g.ctx)
+    (t : FormTree) (pre : List (Option Str)) (hok : formOk T pre t = true) (ps : List Pair)
+    (h : browserPost (seenVia T order g) (renderForm pre t) = .ok ps) : ps = formPairs pre t :=
+  form_roundtrip_at T g.ctx hT hL t pre hok ps
+    (browserPost_via_of T order g _ (renderForm_stable T t pre hok) ps h)
+
+/-- FORM ROUND TRIP on a generator -/
 theorem form_roundtrip_generator (T : Tables) (order : List Str) (g : Gen) (hT : TablesOK T) (hL : Live T g.ctx)
-    (t : FormTree) (hok : formOk T [] t = true) (ps : List Pair)
-    (h : browserPost (seenVia T order g) (renderForm [] t) = .ok ps) : ps = formPairs [] t :=
-  form_roundtrip T g.ctx hT hL t hok ps
-    (browserPost_via_of T order g _ (renderForm_stable T t [] hok) ps h)
+    (t : FormTree) (hok : formOk T [] t = true) (hsub : oneSubmitter t = true) (ps : List Pair)
+    (h : browserSubmit (seenVia T order g) (some 0) (renderForm [] t) = .ok ps) : ps = formPairs [] t := by
+  obtain ⟨ps', h'⟩ := browserPost_of_submit _ _ _ h
+  have e := submit_of_post T (readsType_seenVia T order g) t hok hsub ps' h'
+  rw [h] at e
+  simp only [Except.ok.injEq] at e
+  rw [e]
+  exact form_controls_post_generator T order g hT hL t [] hok ps' h'
 
 theorem form_roundtrip_generator_total (T : Tables) (order : List Str) (g : Gen) (hT : TablesOK T) (hL : Live T g.ctx)
-    (hQ : Quiet T g.ctx) (ho : OrderedSet g.ctx) (t : FormTree) (hok : formOk T [] t = true) :
-    browserPost (seenVia T order g) (renderForm [] t) = .ok (formPairs [] t) := by
+    (hQ : Quiet T g.ctx) (ho : OrderedSet g.ctx) (t : FormTree) (hok : formOk T [] t = true) (hsub : oneSubmitter t = true) :
+    browserSubmit (seenVia T order g) (some 0) (renderForm [] t) = .ok (formPairs [] t) := by
   obtain ⟨ps, h⟩ := form_renders_at T g.ctx hT hL hQ _ (seesAll_seenVia T order g ho) t [] hok
-  rw [h, form_roundtrip_generator T order g hT hL t hok ps h]
+  have e := form_controls_post_generator T order g hT hL t [] hok ps h
+  subst e
+  exact submit_of_post T (readsType_seenVia T order g) t hok hsub _ h
 
 /-- … on `Generator()` with the tables and the attribute order of the current source: every form
     renders, and a browser submits exactly the element's own flat pairs a form can carry -/
-theorem form_roundtrip_fresh_generator (t : FormTree) (hok : formOk Tables.current [] t = true) :
-    browserPost (seenVia Tables.current Flatland.Generated.C11.staticAttributeOrder freshGen) (renderForm [] t) =
+theorem form_roundtrip_fresh_generator (t : FormTree) (hok : formOk Tables.current [] t = true) (hsub : oneSubmitter t = true) :
+    browserSubmit (seenVia Tables.current Flatland.Generated.C11.staticAttributeOrder freshGen) (some 0) (renderForm [] t) =
       .ok (formPairs [] t) :=
-  form_roundtrip_generator_total _ _ _ tablesOK_current fresh_live fresh_quiet fresh_ordered t hok
+  form_roundtrip_generator_total _ _ _ tablesOK_current fresh_live fresh_quiet fresh_ordered t hok hsub
+
+/-! ### a submitter that is not pressed posts nothing -/
+
+/-- the calls `see` makes round-trip control by control -/
+def RoundTrips (T : Tables) (see : Str → Bind → Attrs → Except PyErr Seen) : Prop :=
+  ∀ t pre, formOk T pre t = true → ∀ ps, browserPost see (renderForm pre t) = .ok ps → ps = formPairs pre t
+
+theorem leaf_quiet (T : Tables) {see : Str → Bind → Attrs → Except PyErr Seen} (hsee : ReadsType see)
+    (hrt : RoundTrips T see) (t : FormTree) (pre : List (Option Str)) (hok : formOk T pre t = true)
+    (hleaf : quietPairs pre t = if t.isSubmitterLeaf then [] else formPairs pre t)
+    (hsingle : t.isSubmitterLeaf = true → ∃ c, renderForm pre t = [c])
+    (hcnt : submitters t = if t.isSubmitterLeaf then 1 else 0)
+    (ps : List Pair) (h : browserPost see (renderForm pre t) = .ok ps) :
+    browserSubmit see none (renderForm pre t) = .ok (quietPairs pre t) := by
+  have hc := form_subCount T hsee t pre hok ps h
+  have hps := hrt t pre hok ps h
+  rw [hleaf]
+  cases hl : t.isSubmitterLeaf with
+  | false =>
+    rw [hl] at hcnt
+    simp only [Bool.false_eq_true, if_false] at hcnt ⊢
+    rw [hcnt] at hc
+    rw [← hps]
+    exact browserSubmit_of_none _ ps hc h none
+  | true =>
+    rw [hl] at hcnt
+    simp only [if_true] at hcnt ⊢
+    obtain ⟨c, hcs⟩ := hsingle hl
+    rw [hcs] at h hc ⊢
+    rw [hcnt] at hc
+    obtain ⟨p, q, hp, _, _⟩ := postsAll_cons h
+    obtain ⟨s, m, hs, hm, e⟩ := subCount_cons_inv hc
+    have hm0 : m = 0 := by
+      simp only [subCount, pure, Except.pure, Except.ok.injEq] at hm
+      exact hm.symm
+    subst hm0
+    cases s with
+    | false => simp at e
+    | true => exact browserSubmit_none_single_sub hp hs
+
+mutual
+/-- SUBMITTED WITHOUT PRESSING A SUBMITTER (Enter in a text field, `form.submit()`), any number of
+    submitters in the form: the browser posts the element's pairs except those of the leaves
+    rendered as a `<button>` / `<input type=submit>` -/
+theorem form_unpressed_at (T : Tables) {see : Str → Bind → Attrs → Except PyErr Seen} (hsee : ReadsType see)
+    (hrt : RoundTrips T see) :
+    ∀ (t : FormTree) (pre : List (Option Str)), formOk T pre t = true → ∀ ps,
+      browserPost see (renderForm pre t) = .ok ps → browserSubmit see none (renderForm pre t) = .ok (quietPairs pre t)
+  | .text n u w ex, pre, hok, ps, h => by
+    refine leaf_quiet T hsee hrt _ pre hok (by simp only [quietPairs]) ?_ ?_ ps h
+    · intro hl
+      cases w with
+      | input ty => exact ⟨_, rfl⟩
+      | button => exact ⟨_, rfl⟩
+      | textarea => simp [FormTree.isSubmitterLeaf] at hl
+      | radios ty lits => simp [FormTree.isSubmitterLeaf] at hl
+      | select lits => simp [FormTree.isSubmitterLeaf] at hl
+    · cases w with
+      | input ty => simp only [submitters, FormTree.isSubmitterLeaf]; by_cases hs : submitTy ty = true <;> simp [hs]
+      | button => simp [submitters, FormTree.isSubmitterLeaf]
+      | textarea => simp [submitters, FormTree.isSubmitterLeaf]
+      | radios ty lits => simp [submitters, FormTree.isSubmitterLeaf]
+      | select lits => simp [submitters, FormTree.isSubmitterLeaf]
+  | .bool n tru u ex, pre, hok, ps, h => by
+    refine leaf_quiet T hsee hrt _ pre hok (by simp [quietPairs, FormTree.isSubmitterLeaf]) ?_ ?_ ps h
+    · intro hl; simp [FormTree.isSubmitterLeaf] at hl
+    · simp [submitters, FormTree.isSubmitterLeaf]
+  | .array n strip ms w ex, pre, hok, ps, h => by
+    refine leaf_quiet T hsee hrt _ pre hok (by simp [quietPairs, FormTree.isSubmitterLeaf]) ?_ ?_ ps h
+    · intro hl; simp [FormTree.isSubmitterLeaf] at hl
+    · simp [submitters, FormTree.isSubmitterLeaf]
+  | .joined n u ms ty ex, pre, hok, ps, h => by
+    refine leaf_quiet T hsee hrt _ pre hok (by simp only [quietPairs, FormTree.isSubmitterLeaf]; by_cases hs : submitTy ty = true <;> simp [hs]) ?_ ?_ ps h
+    · intro _; exact ⟨_, rfl⟩
+    · simp only [submitters, FormTree.isSubmitterLeaf]; by_cases hs : submitTy ty = true <;> simp [hs]
+  | .dict n fields, pre, hok, ps, h => by
+    simp only [formOk] at hok
+    simp only [renderForm] at h ⊢
+    simp only [quietPairs]
+    exact fields_unpressed_at T hsee hrt fields (pre ++ [n]) hok ps h
+  | .list n members, pre, hok, ps, h => by
+    simp only [formOk] at hok
+    simp only [renderForm] at h ⊢
+    simp only [quietPairs]
+    exact slots_unpressed_at T hsee hrt members (pre ++ [n]) 0 hok ps h
+theorem fields_unpressed_at (T : Tables) {see : Str → Bind → Attrs → Except PyErr Seen} (hsee : ReadsType see)
+    (hrt : RoundTrips T see) :
+    ∀ (ts : List FormTree) (pre : List (Option Str)), fieldsOk T pre ts = true → ∀ ps,
+      browserPost see (renderFields pre ts) = .ok ps → browserSubmit see none (renderFields pre ts) = .ok (quietFieldPairs pre ts)
+  | [], _, _, _, _ => rfl
+  | t :: ts, pre, hok, ps, h => by
+    simp only [fieldsOk, Bool.and_eq_true] at hok
+    simp only [renderFields] at h ⊢
+    obtain ⟨p, q, hp, hq, _⟩ := postsAll_append h
+    simp only [quietFieldPairs]
+    exact browserSubmit_none_append _ _ _ _ (form_unpressed_at T hsee hrt t pre hok.1 p hp)
+      (fields_unpressed_at T hsee hrt ts pre hok.2 q hq)
+theorem slots_unpressed_at (T : Tables) {see : Str → Bind → Attrs → Except PyErr Seen} (hsee : ReadsType see)
+    (hrt : RoundTrips T see) :
+    ∀ (ts : List FormTree) (pre : List (Option Str)) (i : Nat), slotsOk T pre i ts = true → ∀ ps,
+      browserPost see (renderSlots pre i ts) = .ok ps →
+      browserSubmit see none (renderSlots pre i ts) = .ok (quietSlotPairs pre i ts)
+  | [], _, _, _, _, _ => rfl
+  | t :: ts, pre, i, hok, ps, h => by
+    simp only [slotsOk, Bool.and_eq_true] at hok
+    simp only [renderSlots] at h ⊢
+    obtain ⟨p, q, hp, hq, _⟩ := postsAll_append h
+    simp only [quietSlotPairs]
+    exact browserSubmit_none_append _ _ _ _ (form_unpressed_at T hsee hrt t _ hok.1 p hp)
+      (slots_unpressed_at T hsee hrt ts pre (i + 1) hok.2 q hq)
+end
+
+/-- A SUBMITTER THAT IS NOT PRESSED POSTS NOTHING.  On `Generator()`, every tag call made through
+    `prepareTag`: a form (with any number of buttons) submitted without activating any of them
+    posts the element's flat pairs MINUS the pairs of the leaves rendered as `<button>` /
+    `<input type=submit>`.  So "a rendered form posts the element's flat pairs" is about leaves
+    rendered as successful controls and at most the one submitter that is pressed. -/
+theorem form_unpressed (t : FormTree) (hok : formOk Tables.current [] t = true) :
+    browserSubmit (seenVia Tables.current Flatland.Generated.C11.staticAttributeOrder freshGen) none (renderForm [] t) =
+      .ok (quietPairs [] t) := by
+  obtain ⟨ps, h⟩ := form_renders_at Tables.current freshGen.ctx tablesOK_current fresh_live fresh_quiet _
+    (seesAll_seenVia Tables.current Flatland.Generated.C11.staticAttributeOrder freshGen fresh_ordered) t [] hok
+  exact form_unpressed_at Tables.current (readsType_seenVia _ _ _)
+    (fun t pre hok ps h => form_controls_post_generator _ _ _ tablesOK_current fresh_live t pre hok ps h) t [] hok ps h
 
 end Flatland.C12.Proofs
 
@@ -525,21 +700,21 @@ end
     Boolean boxes are exactly (as a multiset) the element's flat pairs; when every Boolean shows
     its true text or `''`, the pairs a form drops all have the value `''` -/
 theorem form_posts_flatten (T : Tables) (ctx : Ctx) (hT : TablesOK T) (hL : Live T ctx) (t : FormTree)
-    (hok : formOk T [] t = true) (ps : List Pair)
-    (h : browserPost (seenOf T ctx) (renderForm [] t) = .ok ps) :
+    (hok : formOk T [] t = true) (hsub : oneSubmitter t = true) (ps : List Pair)
+    (h : browserSubmit (seenOf T ctx) (some 0) (renderForm [] t) = .ok ps) :
     (flattenNode usep (embed t)).Perm (ps ++ uncheckedPairs [] t) ∧
     (boolsCanonical t = true → ∀ x ∈ uncheckedPairs [] t, x.2 = []) := by
-  rw [form_roundtrip T ctx hT hL t hok ps h]
+  rw [form_roundtrip T ctx hT hL t hok hsub ps h]
   exact ⟨formPairs_flatten t, unchecked_empty t []⟩
 
 /-- every posted name is the separator-join of the names on the path to a flattenable element of
     the tree (list members by index), and the posted value is that element's text (C07 `keys_are_paths`) -/
 theorem posted_keys_are_paths (T : Tables) (ctx : Ctx) (hT : TablesOK T) (hL : Live T ctx) (t : FormTree)
-    (hok : formOk T [] t = true) (ps : List Pair)
-    (h : browserPost (seenOf T ctx) (renderForm [] t) = .ok ps) (x : Pair) (hx : x ∈ ps) :
+    (hok : formOk T [] t = true) (hsub : oneSubmitter t = true) (ps : List Pair)
+    (h : browserSubmit (seenOf T ctx) (some 0) (renderForm [] t) = .ok ps) (x : Pair) (hx : x ∈ ps) :
     ∃ p' n', Flatland.Flat.Proofs.Below [] (embed t) p' n' ∧ n'.fl = true ∧
       x = (joinSep usep (namePath p' n'), n'.u) := by
-  have hperm := (form_posts_flatten T ctx hT hL t hok ps h).1
+  have hperm := (form_posts_flatten T ctx hT hL t hok hsub ps h).1
   exact Flatland.Flat.Proofs.keys_are_paths usep (embed t) x
     (hperm.mem_iff.mpr (List.mem_append.mpr (Or.inl hx)))
 
